@@ -256,3 +256,95 @@ def r_frozen(idx, rep, rule="R-FROZEN", floor=2):
                     % (name, u(st), f.key, ", ".join(x.qualname for x in users[:3])))
         else:
             rep.ok(rule, key, idx.modules[mod].relpath, "never mutated; readers: %s" % ", ".join(x.qualname for x in users[:4]))
+
+
+def r_emptyfill(idx, rep, rule="R-EMPTYFILL", modules=None, floor=5):
+    rep.rule(rule, "a local np.empty buffer of literal shape that is used as a whole (returned, passed on, used in arithmetic) has "
+                   "every cell written by some store of the function (never-written cells are arbitrary memory, different under the "
+                   "JIT and the interpreter)", floor=floor)
+    import itertools
+    for f in idx.all_functions():
+        if modules is not None and f.module.name not in modules:
+            continue
+        if f.module.is_test or "<locals>" in f.qualname:
+            continue
+        C = f.module.constants
+        for st in iter_stmts(f.node.body):
+            if not (isinstance(st, ast.Assign) and isinstance(st.targets[0], ast.Name) and isinstance(st.value, ast.Call)
+                    and call_name(st.value) == "np.empty" and st.value.args):
+                continue
+            name = st.targets[0].id
+            shp = st.value.args[0]
+            dims = [const(e, C) for e in shp.elts] if isinstance(shp, (ast.Tuple, ast.List)) else [const(shp, C)]
+            dims = [d if isinstance(d, int) else None for d in dims]
+            if not any(isinstance(d, int) for d in dims) or any(isinstance(d, int) and (d == 0 or d > 16) for d in dims):
+                continue
+            # whole-array uses: loads of the bare name that are not the base of a subscript
+            pm = parent_map(f.node)
+            whole = [n for n in ast.walk(f.node) if isinstance(n, ast.Name) and n.id == name and isinstance(n.ctx, ast.Load)
+                     and not (isinstance(pm.get(n), ast.Subscript) and pm[n].value is n)]
+            reassigned = [s for s in iter_stmts(f.node.body) if isinstance(s, ast.Assign) and any(isinstance(t, ast.Name) and t.id == name for t in s.targets) and s is not st]
+            if not whole or reassigned:
+                continue
+            # out-parameter pattern: the buffer is handed to a package function that fills it (Y/P/Q scratch arrays of the GJK)
+            outparam = False
+            for n in whole:
+                par = pm.get(n)
+                if isinstance(par, ast.Call) and n in par.args:
+                    callee = idx.resolve_call(f.module, par, f.cls)
+                    if callee is not None and hasattr(callee, "params"):
+                        ps = callee.params()
+                        k = par.args.index(n)
+                        if k < len(ps):
+                            pn = ps[k]
+                            if any(isinstance(x, ast.Subscript) and isinstance(x.ctx, ast.Store) and isinstance(x.value, ast.Name) and x.value.id == pn
+                                   for x in ast.walk(callee.node)):
+                                outparam = True
+            if outparam:
+                continue
+            stores = []
+            for s in iter_stmts(f.node.body):
+                tg = []
+                if isinstance(s, ast.Assign):
+                    for t in s.targets:
+                        tg.extend(t.elts if isinstance(t, ast.Tuple) else [t])
+                elif isinstance(s, ast.AugAssign):
+                    continue
+                for t in tg:
+                    if isinstance(t, ast.Subscript) and isinstance(t.value, ast.Name) and t.value.id == name:
+                        stores.append(index_elts(t))
+            lit = [i for i, d in enumerate(dims) if d is not None]
+            cells = set(itertools.product(*[range(dims[i]) for i in lit]))
+            covered = set()
+            unknown = False
+            for el in stores:
+                el = list(el) + [ast.Slice(lower=None, upper=None, step=None)] * (len(dims) - len(el))
+                per = []
+                ok = True
+                for i, e in enumerate(el[:len(dims)]):
+                    if dims[i] is None:
+                        # symbolic dimension: a loop index or a full slice both cover it over the run of the loop
+                        continue
+                    if isinstance(e, ast.Slice):
+                        lo = const(e.lower, C) if e.lower is not None else 0
+                        hi = const(e.upper, C) if e.upper is not None else dims[i]
+                        if not isinstance(lo, int) or not isinstance(hi, int) or (e.step is not None):
+                            ok = False
+                            break
+                        per.append(set(range(lo if lo >= 0 else dims[i] + lo, hi if hi >= 0 else dims[i] + hi)))
+                    else:
+                        k = const(e, C)
+                        if isinstance(k, int):
+                            per.append({k if k >= 0 else dims[i] + k})
+                        else:
+                            per.append(set(range(dims[i])))   # a loop variable: assumed to sweep the dimension
+                            unknown = True
+                if ok:
+                    covered |= set(itertools.product(*per)) if per else cells
+            key = "%s|%s = np.empty(%s)" % (f.key, name, u(shp))
+            where = "%s:%d" % (f.module.relpath, st.lineno)
+            missing = sorted(cells - covered)
+            rep.check(not missing, rule, key, where,
+                      "cells %s of `%s` are never written but the array is used as a whole (e.g. `%s`): they hold arbitrary memory"
+                      % (missing[:6], name, u(pm.get(whole[0]))[:60] if pm.get(whole[0]) is not None else name),
+                      "%d cells covered by %d stores%s" % (len(cells), len(stores), " (loop-indexed)" if unknown else ""))
